@@ -34,6 +34,8 @@ type Send struct {
 	// Bad: 1 truncated, 2 bad cookie / bad option, 3 a reply opcode / unsupported type: the server must drop it,
 	// and whatever it does with the receive buffer on that path must not disturb other datagrams
 	Bad int `json:"b,omitempty"`
+	// L2 (DHCPv4): not relayed, no ciaddr, no broadcast flag: the reply is a link-level unicast frame
+	L2 bool `json:"l2,omitempty"`
 }
 
 // CCase is one concurrency scenario
@@ -75,6 +77,7 @@ func GenC(t *rapid.T) CCase {
 			if rapid.IntRange(0, 7).Draw(t, "bad") == 0 {
 				snd.Bad = rapid.IntRange(1, 3).Draw(t, "bad-kind")
 			}
+			snd.L2 = rapid.IntRange(0, 2).Draw(t, "l2") == 0
 			s = append(s, snd)
 		}
 		c.Scripts = append(c.Scripts, s)
@@ -163,7 +166,7 @@ func ExecC(c CCase) (res core.Result) {
 		specs := []struct {
 			n string
 			a []string
-		}{{"server_id", []string{"10.10.10.1"}}, {"file", fileArgs(f4)}, {"range", []string{db, "10.10.10.100", end, "60s"}}, {"dns", []string{"8.8.8.8"}}, {"router", []string{"10.10.10.1"}}, {"netmask", []string{"255.255.255.0"}}, {"lease_time", []string{"3600s"}}}
+		}{{"server_id", []string{"10.10.10.1"}}, {"file", fileArgs(f4)}, {"range", []string{db, "10.10.10.100", end, "60s"}}, {"dns", []string{"8.8.8.8"}}, {"router", []string{"10.10.10.1"}}, {"netmask", []string{"255.255.255.0"}}, {"searchdomains", []string{"a4.example", "b4.example.org"}}, {"lease_time", []string{"3600s"}}}
 		h4 = append(h4, func(req, resp *dhcpv4.DHCPv4) (*dhcpv4.DHCPv4, bool) { runtime.Gosched(); return resp, false })
 		for _, s := range specs {
 			h, err := plug.ByName(s.n).Setup4(s.a...)
@@ -187,7 +190,7 @@ func ExecC(c CCase) (res core.Result) {
 		specs := []struct {
 			n string
 			a []string
-		}{{"server_id", []string{"LL", "00:de:ad:be:ef:00"}}, {"file", fileArgs(f6)}, {"prefix", []string{fmt.Sprintf("2001:db8:0:1000::/%d", 64-bits), "64"}}, {"dns", []string{"2001:4860:4860::8888"}}}
+		}{{"server_id", []string{"LL", "00:de:ad:be:ef:00"}}, {"file", fileArgs(f6)}, {"prefix", []string{fmt.Sprintf("2001:db8:0:1000::/%d", 64-bits), "64"}}, {"dns", []string{"2001:4860:4860::8888"}}, {"searchdomains", []string{"a6.example", "b6.example.net", "c6.example"}}}
 		h6 = append(h6, func(req, resp dhcpv6.DHCPv6) (dhcpv6.DHCPv6, bool) { runtime.Gosched(); return resp, false })
 		for _, s := range specs {
 			h, err := plug.ByName(s.n).Setup6(s.a...)
@@ -204,6 +207,11 @@ func ExecC(c CCase) (res core.Result) {
 	}
 	cap4 := server.NewCapture4(h4, nil)
 	cap6 := server.NewCapture6(h6, nil)
+	l2if, _ := ifaces()
+	recv4 := 1
+	if l2if != nil {
+		recv4 = l2if.Index
+	}
 
 	macOf := func(cl int) []byte {
 		if cl < c.Static {
@@ -236,6 +244,10 @@ func ExecC(c CCase) (res core.Result) {
 		xid := xids.Add(1)
 		mac := macOf(s.Client)
 		p := gen.Pkt4{Op: 1, HType: 1, HLen: 6, Xid: xid, CHAddr: hex.EncodeToString(mac), GIAddr: "10.10.10.254"}
+		l2 := s.L2 && l2if != nil && s.Bad == 0
+		if l2 {
+			p.GIAddr = ""
+		}
 		mt := "01"
 		if s.Req {
 			mt = "03"
@@ -251,7 +263,7 @@ func ExecC(c CCase) (res core.Result) {
 			wire[0] = 2
 		}
 		enter()
-		sent, pan := feed4(cap4, wire, &ipv4.ControlMessage{IfIndex: 1}, &net.UDPAddr{IP: net.IPv4(10, 10, 10, 254), Port: 67})
+		sent, pan := feed4(cap4, wire, &ipv4.ControlMessage{IfIndex: recv4}, &net.UDPAddr{IP: net.IPv4(10, 10, 10, 254), Port: 67})
 		inflight.Add(-1)
 		if pan != nil {
 			report(core.Violate("C16/panic", "HandleMsg4 panicked under concurrent load: %v", pan))
@@ -269,7 +281,20 @@ func ExecC(c CCase) (res core.Result) {
 			return
 		}
 		if len(sent) == 1 {
-			rep, err := dhcpv4.FromBytes(sent[0].Payload)
+			payload := sent[0].Payload
+			if sent[0].L2 != l2 {
+				report(core.Violate("C16/cross-talk", "request xid %#x (link-level path %v) was answered on the other path", xid, l2))
+				return
+			}
+			if l2 {
+				f, ok := decodeFrame(sent[0].Frame)
+				if !ok || !bytes.Equal(f.dstMAC, mac) {
+					report(core.Violate("C16/cross-talk", "the frame answering xid %#x of %v is addressed to %v: frames were mixed up", xid, net.HardwareAddr(mac), f.dstMAC))
+					return
+				}
+				payload = f.payload
+			}
+			rep, err := dhcpv4.FromBytes(payload)
 			if err != nil {
 				report(core.Violate("C16/cross-talk", "reply does not parse: %v", err))
 				return
@@ -280,6 +305,14 @@ func ExecC(c CCase) (res core.Result) {
 				return
 			}
 			o.served, o.addr = true, rep.YourIPAddr
+			if s.Client >= c.Static {
+				// dynamic clients pass the whole chain: the search list must be this protocol's own
+				names, okn := gen.DecodeNames(rep.Options.Get(dhcpv4.OptionDNSDomainSearchList))
+				if !okn || strings.Join(names, " ") != "a4.example b4.example.org" {
+					report(core.Violate("C16/wrong-option-under-load", "reply to xid %#x carries search list %q, configured for DHCPv4: [a4.example b4.example.org]", xid, names))
+					return
+				}
+			}
 		}
 		mu.Lock()
 		obs = append(obs, o)
@@ -332,6 +365,18 @@ func ExecC(c CCase) (res core.Result) {
 				return
 			}
 			o.served = true
+			var sl []string
+			if tl, okt := gen.Options6(sent[0].Payload[4:]); okt {
+				for _, t6 := range tl {
+					if t6.Code == gen.O6DomainList {
+						sl, _ = gen.DecodeNames(t6.Data)
+					}
+				}
+			}
+			if strings.Join(sl, " ") != "a6.example b6.example.net c6.example" {
+				report(core.Violate("C16/wrong-option-under-load", "reply to xid %#x carries search list %q, configured for DHCPv6: [a6.example b6.example.net c6.example]", xid, sl))
+				return
+			}
 			if ia := m.Options.OneIANA(); ia != nil && len(ia.Options.Addresses()) > 0 {
 				o.addr = ia.Options.Addresses()[0].IPv6Addr
 			}
